@@ -75,8 +75,9 @@ fn main() {
                     pest::verif::reset_calls();
                     let ok = pest_meta::parser::parse(pest_meta::parser::Rule::grammar_rules, &t).is_ok();
                     pest_meta::validator::verif::reset(usize::MAX);
+                    pest_meta::optimizer::verif::reset_steps(usize::MAX);
                     let _ = pest_meta::parse_and_optimize(&t);
-                    println!("{} {} {} {} {}", t.len(), pest::verif::calls(), ok, f, pest_meta::validator::verif::steps());
+                    println!("{} {} {} {} {} {}", t.len(), pest::verif::calls(), ok, f, pest_meta::validator::verif::steps(), pest_meta::optimizer::verif::steps());
                 }
             }
         }
